@@ -700,7 +700,9 @@ func (dr *dirRepo) gc() error {
 			} {
 				err := os.Remove(dir)
 				if err != nil && !errors.Is(err, fs.ErrNotExist) {
+					// something is left in the repo, keep the files that make the directory an OCI layout
 					errs = append(errs, err)
+					break
 				}
 			}
 			return errors.Join(errs...)
